@@ -9,7 +9,7 @@ VerbDim == Verbs \cup {"Static"}
 PathDim == { <<"lit:/string_literal">>, <<"local">>, <<"pkg">>, <<"imported">>, <<"imported", "lit:endpoint">>,
              <<"lit:host", "imported", "lit:x/", "local">>, <<"lit:/with/:param/sub">>, <<"pkg", "pkg">>,
              <<"shadow">>, <<"shadow", "lit:/tail">> }
-HandlerDim == {"method", "ptrmethod", "func", "importedfunc", "importedmethod", "literal"}
+HandlerDim == {"method", "ptrmethod", "func", "importedfunc", "importedmethod", "literal", "localtwin"}
 InputDim == {"none", "int", "struct", "slice", "ptr"}
 QueryDim == { <<>>, <<"plain:q1">>, <<"plain:q1", "plain:q-2">>, <<"bool:my-bool">>, <<"int64:my-int", "bool:flag">>,
               <<"generic:param-name">>, <<"plain:a", "generic:id", "int64:n">>, <<"pkggeneric:id-item">>, <<"plain:b", "pkggeneric:other-id">>,
